@@ -93,14 +93,45 @@ type siCase struct {
 
 func genSiCase(t *rapid.T) siCase {
 	init := genSet(t, 8)
-	if rapid.IntRange(0, 5).Draw(t, "longinit") == 0 {
+	// interval mode: the set is a run of consecutive integers with at most two holes, and the operations work on the
+	// holes and the two ends (whatever a function concludes from min, max and length is decided here)
+	lo, hi, interval := 0, 0, rapid.IntRange(0, 3).Draw(t, "interval") == 0
+	if interval {
+		lo = rapid.IntRange(-8, 5).Draw(t, "lo")
+		hi = lo + rapid.IntRange(1, 14).Draw(t, "runlen")
+		m := map[int]bool{}
+		for v := lo; v <= hi; v++ {
+			m[v] = true
+		}
+		for k := rapid.IntRange(0, 2).Draw(t, "holes"); k > 0; k-- {
+			delete(m, rapid.IntRange(lo, hi).Draw(t, "hole"))
+		}
+		init = sortedKeys(m)
+	}
+	genValue := func(t *rapid.T) int {
+		if interval && rapid.IntRange(0, 3).Draw(t, "inrun") != 0 {
+			return rapid.IntRange(lo-1, hi+1).Draw(t, "runv")
+		}
+		return genValue(t)
+	}
+	genSet := func(t *rapid.T, maxLen int) []int {
+		if !interval {
+			return genSet(t, maxLen)
+		}
+		m := map[int]bool{}
+		for k := rapid.IntRange(0, maxLen).Draw(t, "len"); k > 0; k-- {
+			m[genValue(t)] = true
+		}
+		return sortedKeys(m)
+	}
+	if !interval && rapid.IntRange(0, 5).Draw(t, "longinit") == 0 {
 		m := map[int]bool{}
 		for i := rapid.IntRange(16, 70).Draw(t, "initlen"); i > 0; i-- {
 			m[rapid.IntRange(-8, 120).Draw(t, "iv")] = true
 		}
 		init = sortedKeys(m)
 	}
-	if rapid.IntRange(0, 9).Draw(t, "hugeinit") == 0 {
+	if !interval && rapid.IntRange(0, 9).Draw(t, "hugeinit") == 0 {
 		// hundreds of elements: anything that happens at a capacity or length threshold (64, 128, 256, ...) and on shrinking
 		m := map[int]bool{}
 		for i := rapid.IntRange(100, sz(400, 1500)).Draw(t, "hugelen"); i > 0; i-- {
